@@ -239,7 +239,12 @@ def compare_outcomes(I, code_outs, spec_outs, oname, rlimit, effects=False):
             if co.kind == "ret" and so.kind == "ret":
                 m = values_match(I, co.value, so.value)
                 goal_txt.append(f"spec#{j}: result == {so.value!r}")
-                if effects:
+                if effects == "cache" and not any(g[0] == "dict-write" for g in co.extra.get("ghost", [])):
+                    # a hit: nothing may be recomputed (no handler invocation at all)
+                    if co.effects:
+                        m = False
+                    goal_txt.append("hit: no handler invoked")
+                elif effects:
                     from . import effects as fx
                     lg = fx.logs_equivalent(I, co.effects, so.effects, co.pcs + so.pcs, rlimit)
                     m = lg if m is True else z3.And(m, lg)
@@ -633,6 +638,11 @@ def verify_function(fc: FunctionContract, specs, rlimit=20_000_000, hooks=None):
                                                                      after=([old_val] if fc.old is not None else []))]
         for rname, cond, exc_cls in fc.raises:
             rep["obligations"] += [o.as_dict() for o in check_raises(I, code_outs, cond, exc_cls, spec_inputs, f"{oname}/{rname}", rlimit)]
+        if getattr(fc, "dict_invs", None):
+            class _MC:
+                dict_invs = fc.dict_invs
+                may_assign = getattr(fc, "may_assign", ())
+            rep["obligations"] += [o.as_dict() for o in check_dict_writes(I, _MC, inputs[0], code_outs, oname, rlimit)]
         extra = getattr(I, "extra_obligations", [])
         rep["obligations"] += [o.as_dict() for o in extra]
         del I.pcs[:]
